@@ -5,6 +5,8 @@ import (
 	"encoding/json"
 	"fmt"
 	"math/big"
+	"strings"
+	"sync/atomic"
 	"time"
 
 	"github.com/Eyevinn/mp4ff/mp4"
@@ -615,6 +617,132 @@ func c09CombinedCase(c *vf.Ctx, spec *gen.ProgSpec) {
 	}
 }
 
+// c09Query is one read-only query on a decoded track; Run renders its answer as text.
+type c09Query struct {
+	Name string
+	Run  func(f *mp4.File, tr *mp4.TrakBox) string
+}
+
+// c09Queries lists the query alphabet of track ti of a generated file: every per-sample query for every sample number,
+// every interval query for every interval, every chunk query for every chunk, every time 0..total+1.
+func c09Queries(pf *gen.ProgFile, ti int) []c09Query {
+	var qs []c09Query
+	n := len(pf.Samples[ti])
+	add := func(name string, run func(f *mp4.File, tr *mp4.TrakBox) string) { qs = append(qs, c09Query{name, run}) }
+	var total uint64
+	for _, sm := range pf.Samples[ti] {
+		total += uint64(sm.Dur)
+	}
+	for nr := 1; nr <= n; nr++ {
+		k := uint32(nr)
+		add(fmt.Sprintf("stts.GetDecodeTime(%d)", k), func(_ *mp4.File, tr *mp4.TrakBox) string {
+			a, b := tr.Mdia.Minf.Stbl.Stts.GetDecodeTime(k)
+			return fmt.Sprint(a, b)
+		})
+		add(fmt.Sprintf("stts.GetDur(%d)", k), func(_ *mp4.File, tr *mp4.TrakBox) string { return fmt.Sprint(tr.Mdia.Minf.Stbl.Stts.GetDur(k)) })
+		add(fmt.Sprintf("ctts.GetCompositionTimeOffset(%d)", k), func(_ *mp4.File, tr *mp4.TrakBox) string {
+			if tr.Mdia.Minf.Stbl.Ctts == nil {
+				return "-"
+			}
+			return fmt.Sprint(tr.Mdia.Minf.Stbl.Ctts.GetCompositionTimeOffset(k))
+		})
+		add(fmt.Sprintf("stss.IsSyncSample(%d)", k), func(_ *mp4.File, tr *mp4.TrakBox) string {
+			if tr.Mdia.Minf.Stbl.Stss == nil {
+				return "-"
+			}
+			return fmt.Sprint(tr.Mdia.Minf.Stbl.Stss.IsSyncSample(k))
+		})
+		add(fmt.Sprintf("stsz.GetSampleSize(%d)", k), func(_ *mp4.File, tr *mp4.TrakBox) string {
+			return fmt.Sprint(tr.Mdia.Minf.Stbl.Stsz.GetSampleSize(int(k)))
+		})
+		add(fmt.Sprintf("stsc.ChunkNrFromSampleNr(%d)", k), func(_ *mp4.File, tr *mp4.TrakBox) string {
+			a, b, err := tr.Mdia.Minf.Stbl.Stsc.ChunkNrFromSampleNr(int(k))
+			return fmt.Sprint(a, b, err)
+		})
+	}
+	for t := uint64(0); t <= total+1; t++ {
+		tm := t
+		add(fmt.Sprintf("stts.GetSampleNrAtTime(%d)", tm), func(_ *mp4.File, tr *mp4.TrakBox) string {
+			a, err := tr.Mdia.Minf.Stbl.Stts.GetSampleNrAtTime(tm)
+			return fmt.Sprint(a, err)
+		})
+	}
+	for a := 1; a <= n; a++ {
+		for b := a; b <= n; b++ {
+			x, y := uint32(a), uint32(b)
+			add(fmt.Sprintf("trak.GetSampleData(%d,%d)", x, y), func(_ *mp4.File, tr *mp4.TrakBox) string {
+				g, err := tr.GetSampleData(x, y)
+				return fmt.Sprint(g, err)
+			})
+			add(fmt.Sprintf("trak.GetRangesForSampleInterval(%d,%d)", x, y), func(_ *mp4.File, tr *mp4.TrakBox) string {
+				g, err := tr.GetRangesForSampleInterval(x, y)
+				return fmt.Sprint(g, err)
+			})
+			add(fmt.Sprintf("stsz.GetTotalSampleSize(%d,%d)", x, y), func(_ *mp4.File, tr *mp4.TrakBox) string {
+				g, err := tr.Mdia.Minf.Stbl.Stsz.GetTotalSampleSize(x, y)
+				return fmt.Sprint(g, err)
+			})
+			add(fmt.Sprintf("stsc.GetContainingChunks(%d,%d)", x, y), func(_ *mp4.File, tr *mp4.TrakBox) string {
+				g, err := tr.Mdia.Minf.Stbl.Stsc.GetContainingChunks(x, y)
+				return fmt.Sprint(g, err)
+			})
+			add(fmt.Sprintf("file.CopySampleData(%d,%d)", x, y), func(f *mp4.File, tr *mp4.TrakBox) string {
+				var out bytes.Buffer
+				err := f.CopySampleData(&out, nil, tr, x, y, nil)
+				return fmt.Sprint(vf.Hex(out.Bytes()), err)
+			})
+		}
+	}
+	return qs
+}
+
+// c09QueryPairs: every ordered pair of queries on a freshly decoded file; the second answer must be the answer the
+// query gives when asked alone (which the per-query comparisons against the expansion have validated).
+func c09QueryPairs(c *vf.Ctx, spec *gen.ProgSpec) (pairs int64) {
+	pf, err := gen.BuildProg(spec)
+	if err != nil {
+		vf.Harness("c09 generator: %v", err)
+	}
+	fresh := func() *mp4.File {
+		f, err := mp4.DecodeFileSR(bitsSR(pf.Bytes))
+		if err != nil {
+			vf.Harness("c09 pairs: %v", err)
+		}
+		return f
+	}
+	for ti := range spec.Tracks {
+		qs := c09Queries(pf, ti)
+		solo := make([]string, len(qs))
+		for i, q := range qs {
+			f := fresh()
+			solo[i] = q.Run(f, f.Moov.Traks[ti])
+		}
+		for i, q1 := range qs {
+			for j, q2 := range qs {
+				f := fresh()
+				tr := f.Moov.Traks[ti]
+				var got string
+				if guard(c, "query pair", "queries do not panic", func() interface{} {
+					return map[string]interface{}{"case": c09Combined{Kind: "pairs", Spec: spec}, "track": ti, "first": q1.Name, "second": q2.Name}
+				}, func() {
+					_ = q1.Run(f, tr)
+					got = q2.Run(f, tr)
+				}) {
+					return
+				}
+				pairs++
+				if got != solo[j] {
+					name := q2.Name[:strings.Index(q2.Name, "(")] + " after " + q1.Name[:strings.Index(q1.Name, "(")]
+					c.Fail("query history: "+name, "a read-only query gives the same answer whatever was asked before", map[string]interface{}{"case": c09Combined{Kind: "pairs", Spec: spec}, "track": ti, "first": q1.Name, "second": q2.Name, "got": got, "alone": solo[j]})
+					return
+				}
+				_ = i
+			}
+		}
+	}
+	return pairs
+}
+
 func c09EnumCombined(c *vf.Ctx, maxN int) {
 	var specs []*gen.ProgSpec
 	for n := 1; n <= maxN; n++ {
@@ -678,11 +806,16 @@ func c09EnumCombined(c *vf.Ctx, maxN int) {
 			}
 		})
 	}
+	var pairs atomic.Int64
 	c.Parallel(len(specs), func(i int) {
 		c09CombinedCase(c, specs[i])
+		if int(specs[i].Tracks[0].T.StszCount) <= maxN-2 {
+			pairs.Add(c09QueryPairs(c, specs[i]))
+		}
 		c.Evals.Add(1)
 		c.DistinctN.Add(1)
 	})
+	c.Add("ordered_query_pairs_on_fresh_objects", pairs.Load())
 	c.Add("combined_files", int64(len(specs)))
 	c.Sample(c09Combined{Kind: "combined", Spec: specs[len(specs)/2]})
 }
@@ -693,7 +826,7 @@ func runC09(c *vf.Ctx) {
 		maxN, combN = 9, 6
 		c.SetBudget(10 * 60 * 1e9)
 	}
-	c.Rule = "every run-length table of N samples: stts = all compositions of N x deltas {1,2,3,2^31,2^32-1} per run (+ final single zero duration); ctts v0/v1 = all compositions x offsets {0,1,2}/{0,1,-1} (+ a zero-count run at every position); stsc = all chunkings (compositions) x every run-length encoding of the chunking (canonical and redundant) x description ids {1,2} per entry; stsz uniform / all size vectors over {1,2,3,2^31,2^32-1}; stco/co64 boundary offsets; stss every subset; sdtp all 256 entry values. Tables are serialised by an independent raw writer, decoded by the library, and every query is asked for every sample number, every interval 1<=a<=b<=N and every time 0..total+1 and compared with the naive per-sample expansion. Combined queries (GetSampleData, GetRangesForSampleInterval, CopySampleData in memory and lazy with work buffers of 0,1,2,3,4,6 bytes) on generated files for all chunkings of N samples x 8 table variants x {1,2} tracks. A case = one table/file (distinct by construction)."
+	c.Rule = "every run-length table of N samples: stts = all compositions of N x deltas {1,2,3,2^31,2^32-1} per run (+ final single zero duration); ctts v0/v1 = all compositions x offsets {0,1,2}/{0,1,-1} (+ a zero-count run at every position); stsc = all chunkings (compositions) x every run-length encoding of the chunking (canonical and redundant) x description ids {1,2} per entry; stsz uniform / all size vectors over {1,2,3,2^31,2^32-1}; stco/co64 boundary offsets; stss every subset; sdtp all 256 entry values. Tables are serialised by an independent raw writer, decoded by the library, and every query is asked for every sample number, every interval 1<=a<=b<=N and every time 0..total+1 and compared with the naive per-sample expansion. Combined queries (GetSampleData, GetRangesForSampleInterval, CopySampleData in memory and lazy with work buffers of 0,1,2,3,4,6 bytes) on generated files for all chunkings of N samples x 8 table variants x {1,2} tracks; on the files with N-2 or fewer samples every ORDERED PAIR of queries (all per-sample, per-interval, per-chunk and per-time queries of a track) is asked on a freshly decoded file and the second answer must equal the answer given alone. A case = one table/file (distinct by construction)."
 	c.Bound = fmt.Sprintf("single tables: N <= %d; combined: N <= %d", maxN, combN)
 	c09EnumStts(c, maxN)
 	c09EnumCtts(c, maxN)
